@@ -10,8 +10,12 @@ PARTIAL.  **Proved**: the lookup of `DenseOutput` (`DV.Dense`, tied to the code 
 for every strictly increasing array of piece end times and every query, the piece whose interval
 contains the query — for forward runs and, with the repaired lookup, for backward runs; the scalar
 and the vector lookup agree; a Hermite piece (regenerated from the source, C17) reproduces its end
-values and end slopes and every cubic.  **Not proved** (numerical analysis / outside the model): the
-`O(h⁴)` interpolation error (Peano kernel bound for cubic Hermite interpolation, cited), that the end
+values and end slopes and every cubic; on data taken from a QUARTIC the interpolation error is exactly
+`e (t - t0)^2 (t - t1)^2` (`e` the leading coefficient, i.e. `p/24`), hence at most `|p| h^4 / 384` inside the
+step, with equality at the midpoint - the `O(h⁴)` clause with its sharp classical constant, for the first
+polynomial degree the piece does not reproduce (`interpolation_error_on_quartic`, `…_bound`, `…_sharp`).
+**Not proved** (numerical analysis / outside the model): the
+`O(h⁴)` interpolation error for general smooth data (Peano kernel bound for cubic Hermite interpolation, cited), that the end
 end slope computed by a step is the right-hand side at its end state (C02's step theorems give it for
 the explicit model; measured on the implementation for every method family), Richardson wrappers.
 **Proved as well** (`DV.SlopeCache`, tied to the code by replaying call sequences with jumps, repeated
@@ -74,6 +78,37 @@ theorem piece_reproduces_recorded_states {K : Type} [Field K] [DecidableEq K] (t
     DVP.Gen.Hermite.call t0 t1 p0 p1 m0 m1 t0 = p0 ∧ DVP.Gen.Hermite.call t0 t1 p0 p1 m0 m1 t1 = p1 ∧
     DVP.Gen.Hermite.grad t0 t1 p0 p1 m0 m1 t0 = m0 ∧ DVP.Gen.Hermite.grad t0 t1 p0 p1 m0 m1 t1 = m1 :=
   ⟨DVP.Hermite.call_left .., DVP.Hermite.call_right _ _ _ _ _ _ h, DVP.Hermite.grad_left .., DVP.Hermite.grad_right _ _ _ _ _ _ h⟩
+
+/-- **Between grid points the error is of the order a cubic Hermite interpolant allows**: for data taken from
+any quartic `p` (values and slopes at both ends), the piece differs from `p` at EVERY `te` by exactly
+`e (te - t0)^2 (te - t1)^2`, `e = p''''/24` - either orientation of the interval, inside or outside it. -/
+theorem interpolation_error_on_quartic {K : Type} [Field K] [DecidableEq K] (a b c d e t0 t1 te : K) (h : t1 ≠ t0) :
+    (a + b*te + c*te^2 + d*te^3 + e*te^4) -
+      DVP.Gen.Hermite.call t0 t1 (a + b*t0 + c*t0^2 + d*t0^3 + e*t0^4) (a + b*t1 + c*t1^2 + d*t1^3 + e*t1^4)
+        (b + 2*c*t0 + 3*d*t0^2 + 4*e*t0^3) (b + 2*c*t1 + 3*d*t1^2 + 4*e*t1^3) te = e * ((te - t0)^2 * (te - t1)^2) :=
+  DVP.Hermite.call_quartic_error a b c d e t0 t1 te h
+
+/-- … so for a query inside the step (`(te - t0)(te - t1) ≤ 0`, either orientation) the error is at most
+`|e| h^4 / 16 = |p''''| h^4 / 384` … -/
+theorem interpolation_error_on_quartic_bound {K : Type} [Field K] [LinearOrder K] [IsStrictOrderedRing K] [DecidableEq K]
+    (a b c d e t0 t1 te : K) (h : t1 ≠ t0) (hin : (te - t0) * (te - t1) ≤ 0) :
+    |(a + b*te + c*te^2 + d*te^3 + e*te^4) -
+      DVP.Gen.Hermite.call t0 t1 (a + b*t0 + c*t0^2 + d*t0^3 + e*t0^4) (a + b*t1 + c*t1^2 + d*t1^3 + e*t1^4)
+        (b + 2*c*t0 + 3*d*t0^2 + 4*e*t0^3) (b + 2*c*t1 + 3*d*t1^2 + 4*e*t1^3) te| ≤ |e| * ((t1 - t0)^4 / 16) := by
+  rw [DVP.Hermite.call_quartic_error a b c d e t0 t1 te h, abs_mul]
+  have h0 : 0 ≤ (te - t0)^2 * (te - t1)^2 := by positivity
+  rw [abs_of_nonneg h0]
+  exact mul_le_mul_of_nonneg_left (DVP.Hermite.node_product_bound t0 t1 te hin) (abs_nonneg e)
+
+/-- … and the bound is attained at the midpoint of the step: no smaller constant is true of the code -/
+theorem interpolation_error_on_quartic_sharp {K : Type} [Field K] [CharZero K] [DecidableEq K] (a b c d e t0 t1 : K) (h : t1 ≠ t0) :
+    (a + b*((t0 + t1)/2) + c*((t0 + t1)/2)^2 + d*((t0 + t1)/2)^3 + e*((t0 + t1)/2)^4) -
+      DVP.Gen.Hermite.call t0 t1 (a + b*t0 + c*t0^2 + d*t0^3 + e*t0^4) (a + b*t1 + c*t1^2 + d*t1^3 + e*t1^4)
+        (b + 2*c*t0 + 3*d*t0^2 + 4*e*t0^3) (b + 2*c*t1 + 3*d*t1^2 + 4*e*t1^3) ((t0 + t1)/2) = e * ((t1 - t0)^4 / 16) := by
+  rw [DVP.Hermite.call_quartic_error a b c d e t0 t1 _ h]
+  have h2 : (2 : K) ≠ 0 := by exact_mod_cast (two_ne_zero : (2 : ℕ) ≠ 0)
+  field_simp
+  ring
 
 /-- **The start slope of every step's dense piece is the right-hand side at the step's start**, after any
 history of calls on the integrator object: completed (with any number of rejected attempts before the
